@@ -1,3 +1,4 @@
+use super::bitboard::Bitboard;
 use super::square::Square;
 use crate::chess::colour::Colour;
 use crate::chess::piece::Piece;
@@ -67,17 +68,40 @@ impl Position {
             fen += " -";
         } else {
             fen += " ";
+            // X-FEN: K/Q/k/q mean the outermost rook on that wing; any other
+            // castling rook is named by its file letter
+            let white_rooks = npos.get_us() & npos.get_rooks();
+            let black_rooks = npos.get_them() & npos.get_rooks();
+            let letter = |rooks: Bitboard, file: u8, rank: u8, kingside: bool| -> char {
+                let is_outermost = if kingside {
+                    !(file + 1..8).any(|f| rooks.is_set(Square::from_coords(f, rank)))
+                } else {
+                    !(0..file).any(|f| rooks.is_set(Square::from_coords(f, rank)))
+                };
+                let c = if !is_outermost {
+                    (b'a' + file) as char
+                } else if kingside {
+                    'k'
+                } else {
+                    'q'
+                };
+                if rank == 0 {
+                    c.to_ascii_uppercase()
+                } else {
+                    c
+                }
+            };
             if npos.us_ksc {
-                fen += "K";
+                fen.push(letter(white_rooks, npos.castle_files[0], 0, true));
             }
             if npos.us_qsc {
-                fen += "Q";
+                fen.push(letter(white_rooks, npos.castle_files[1], 0, false));
             }
             if npos.them_ksc {
-                fen += "k";
+                fen.push(letter(black_rooks, npos.castle_files[2], 7, true));
             }
             if npos.them_qsc {
-                fen += "q";
+                fen.push(letter(black_rooks, npos.castle_files[3], 7, false));
             }
         }
 
